@@ -528,7 +528,7 @@ func c16Policy(t *testing.T, in c16Input) Record {
 		ctx, cancel := context.WithCancel(context.Background())
 		defer cancel()
 		cache := &c16Cache{failFor: map[string]int{}}
-		st, err := setec.NewStore(ctx, setec.StoreConfig{Client: c16ClientFor(svc, in.HTTP), Secrets: []string{"a"}, AllowLookup: in.Allow,
+		st, err := newStoreReleased(ctx, setec.StoreConfig{Client: c16ClientFor(svc, in.HTTP), Secrets: []string{"a"}, AllowLookup: in.Allow,
 			PollInterval: -1, Cache: cache, Logf: func(string, ...any) {}})
 		if err != nil {
 			cls = 9
@@ -653,7 +653,7 @@ func c16Late(t *testing.T, in c16Input) Record {
 		svc.static["x"] = c16SV{ver: 7, tok: 5}
 		ctx, cancel := context.WithCancel(context.Background())
 		defer cancel()
-		st, err := setec.NewStore(ctx, setec.StoreConfig{Client: svc, Secrets: []string{"a"}, AllowLookup: true,
+		st, err := newStoreReleased(ctx, setec.StoreConfig{Client: svc, Secrets: []string{"a"}, AllowLookup: true,
 			PollInterval: -1, Logf: func(string, ...any) {}})
 		if err != nil {
 			clsA = 9
@@ -797,7 +797,7 @@ func c16RunFlights(t *testing.T, in c16Input) []c16FlightObs {
 					e.names++
 				}
 			}
-			st, err := setec.NewStore(ctx, setec.StoreConfig{Client: c16ClientFor(e.svc, in.HTTP), Secrets: []string{"a"}, AllowLookup: true,
+			st, err := newStoreReleased(ctx, setec.StoreConfig{Client: c16ClientFor(e.svc, in.HTTP), Secrets: []string{"a"}, AllowLookup: true,
 				PollInterval: -1, Cache: e.cache, Logf: func(string, ...any) {}})
 			if err != nil {
 				return
@@ -1269,7 +1269,7 @@ func c16PollH(t *testing.T, in c16Input) Record {
 		}}
 		ctx, cancel := context.WithCancel(context.Background())
 		defer cancel()
-		st, err := setec.NewStore(ctx, setec.StoreConfig{Client: cli, Secrets: names, PollInterval: -1, Logf: func(string, ...any) {}})
+		st, err := newStoreReleased(ctx, setec.StoreConfig{Client: cli, Secrets: names, PollInterval: -1, Logf: func(string, ...any) {}})
 		if err != nil {
 			cls = 9
 			return
